@@ -111,6 +111,8 @@ def run(tier, seed, t0):
     import scenarios
     vlib.build_harness()
     bscn = scenarios.generate("backlog", 10 if tier == "quick" else 80, seed)
+    # the transport stalls in the middle of a frame and the server closes (connection / channel) meanwhile
+    bscn += scenarios.generate("midframe_close", 120 if tier == "quick" else 2000, seed)
     bfiles, bsumm = vlib.run_sessions(PROP + "-backlog", bscn, tier, hang_ms=hang)
     bconsumed, bbad = vlib.validate_traces("ConnTrace", "ConnTrace.cfg", bfiles, timeout=1800, xmx="4g")
     v.absorb(bbad)
